@@ -172,7 +172,7 @@ static void revoked_chunks(int len, int cpu)
 					s->next_out = out; s->avail_out = couts[co];
 					r = isal_deflate(s);
 					size_t p = couts[co] - s->avail_out;
-					if (r || g_check() || ol + p > 300000 - 8)
+					if (r || g_check() || ol + p > 700000 - 8)
 						break;
 					memcpy(TMP + ol, out, p);
 					ol += p;
@@ -241,7 +241,7 @@ out:
 int main(int argc, char **argv)
 {
 	v_init(argc, argv, "C05");
-	IN = malloc(70000); TMP = malloc(300000); TMP2 = malloc(70000);
+	IN = malloc(210000); TMP = malloc(700000); TMP2 = malloc(210000);
 	g_canary_span = 512;
 #ifdef VERIF_FLAVOUR_NOARCH
 	static const int cpus[] = { CPU_BASE };
